@@ -4,7 +4,7 @@
 # Writes seeded/RESULTS.tsv: id, property, applies, quick result, thorough result, signatures.
 cd /verif
 out=seeded/RESULTS.tsv
-printf 'seed\tproperty\tapplies\tquick\tthorough\tsignatures\n' > $out
+if [ -n "$ONLY" ] && [ -f $out ]; then for x in $ONLY; do grep -v "^$x	" $out > $out.tmp; mv $out.tmp $out; done; else printf 'seed\tproperty\tapplies\tquick\tthorough\tsignatures\n' > $out; fi
 for d in seeded/C*-*/; do
   id=$(basename $d); prop=${id%%-*}
   [ -n "$ONLY" ] && ! echo " $ONLY " | grep -q " $id " && continue
@@ -30,6 +30,15 @@ d=json.load(open('$r')); f=d.get('failure') or {}; print(str(f.get('signature') 
       if [ "${q2%%|*}" != 0 ]; then q="${q2%%|*}|[by ./check $prop] ${q2#*|}"; break; fi
     done
     prop=$own
+  fi
+  if [ "${q%%|*}" = 0 ] && [ -d $d/demo ]; then
+    # does the change still break the property on the current tree? (a later repair may mask it)
+    n=${id##*-}; mkdir -p $wt/out/$n && cp -r $d/demo $wt/out/$n/
+    if (cd $wt && GOFLAGS=-mod=mod GOPROXY=off GOSUMDB=off GOTOOLCHAIN=local timeout 600 go run ./out/$n/demo >/dev/null 2>&1); then
+      printf '%s\t%s\tyes\tnot a violation any more\t-\tthe demonstration passes with the change applied to the current tree: a later repair masks it\n' $id $prop >> $out
+      rm -rf $wt/out; A=/verif/.cache/alt-$(printf %s "$wt" | sha1sum | cut -c1-10); git -C /repo worktree remove --force $wt; rm -rf $A; continue
+    fi
+    rm -rf $wt/out
   fi
   if [ "${q%%|*}" = 0 ]; then t=$(run thorough); fi
   s="${q#*|}"; [ "${q%%|*}" = 0 ] && s="${t#*|}"
